@@ -138,24 +138,34 @@ func SimplifyBounds(ctx *OpContext, k Kind, x, y *BoundValue) Value {
 			// which are represented as a negative exponent to multiply with the coefficient.
 			// We reset lo and hi to empty apd.Decimal values to not modify the originals,
 			// given that apd.Decimal contains pointers which are carried with shallow copies.
+			// Ceil and Floor round to the precision of the context: if that
+			// loses digits the adjusted bound is not the real one and no
+			// conclusion may be drawn from it.
+			var cond apd.Condition
 			if a.X.Exponent < 0 {
 				lo = apd.Decimal{}
 				if x.Op == GreaterEqualOp {
 					// >=3.4  ==>  >=4
-					internal.BaseContext.Ceil(&lo, &a.X)
+					cond, _ = internal.BaseContext.Ceil(&lo, &a.X)
 				} else {
 					// >3.4   ==>  >3
-					internal.BaseContext.Floor(&lo, &a.X)
+					cond, _ = internal.BaseContext.Floor(&lo, &a.X)
+				}
+				if cond.Inexact() {
+					break
 				}
 			}
 			if b.X.Exponent < 0 {
 				hi = apd.Decimal{}
 				if y.Op == LessEqualOp {
 					// <=2.3  ==>  <= 2
-					internal.BaseContext.Floor(&hi, &b.X)
+					cond, _ = internal.BaseContext.Floor(&hi, &b.X)
 				} else {
 					// <2.3   ==>  < 3
-					internal.BaseContext.Ceil(&hi, &b.X)
+					cond, _ = internal.BaseContext.Ceil(&hi, &b.X)
+				}
+				if cond.Inexact() {
+					break
 				}
 			}
 		}
